@@ -365,7 +365,9 @@ SPEC = {
         "TypeId equality is structural equality of types (the type registry hash-conses layers)",
         "exactly matching = every passed argument has the type of its parameter, ignoring value category, const and "
         "trailing defaulted parameters; two such candidates (f(int)/f(out int), f(int)/f(int, int = 0), "
-        "template<T> f(T)/f(int)) are ambiguous; judged wherever no 1-vector is involved (int -> int1 is ranked exact)",
+        "template<T> f(T)/f(int)) are ambiguous; judged wherever no 1-vector is involved (int -> int1 is ranked exact); a "
+        "candidate that meets a 1-vector (outside the property's quantifier) takes no part in the oracle's domination "
+        "judgement either (int1 -> half1 is ranked Conversion/Expand by the code: notes/C16.md reading 14)",
         "FunctionIds of the candidates are pairwise distinct; an instantiated signature has as many parameters as the "
         "template (WF, proved for the modelled templates)",
         "which overload list reaches find_function_type (innermost scope that knows the name; all methods of the struct; all "
